@@ -131,6 +131,7 @@ def main(argv):
             from . import selftest, seedreg
             selftest.run(ctx)
             seedreg.run(ctx)
+            seedreg.run_benign(ctx)
         except AnalysisError as e:
             err = "AnalysisError (self-test): %s" % e
         except Exception as e:
